@@ -25,6 +25,10 @@ CHECKS = {
    design="5/C03", technique="TLA+ history spec (SetKexp) + TLC invariant CheckK + trace validation of k_exp histories"),
  "C04": dict(text="The aggregation schema (every path of Balance = sum of per-carrier paths; breakdowns; per-m2 = absolute / area) is data of the TLA+ trace specification and is checked by TLC on every path of every recorded evaluation, over histories with four areas." + BOTH,
    design="5/C04", technique="TLA+ aggregation schema + trace validation of every Balance path over area histories"),
+ "C05": dict(text="The normalisation of a parsed file is specified as a TLA+ state machine (spec/Components.tla: one action per visited system id, order left open). TLC explores EVERY schedule on a family of files (tuples of system profiles, negative and shared ids) and checks confluence, the closed form max(0, use - declared), preservation of declared lines and idempotence; every file is parsed by the real parser under several hash orders recorded by the hooks, and TLC validates each recorded normalisation step by step against the state machine and evaluates the closed forms on (declared, parsed).",
+   design="5/C05", technique="TLA+ state machine of normalize() + TLC over all schedules + trace validation of hook-recorded normalisations"),
+ "C06": dict(text="Abstract specification P_C06 (per system and step conservation of auxiliary energy, no negative share, proportionality to |Q|) checked by TLC on the normalisation state machine over all schedules (MC_Comp, 1-3 systems) and on every recorded normalisation and evaluation of the real library (Parse and Eval events).",
+   design="5/C06", technique="TLA+ abstract spec P_C06 + TLC over all schedules + trace validation of Parse/Eval events"),
  "C08": dict(text="Session histories Evaluate(full) ; Strip ; Evaluate(stripped): TLC checks on the specification that Factors!Strip keeps every key an evaluation looks up (MC_C02!CheckStrip) and, on traces of the real library, that outcome and every field are unchanged and nothing panics." + BOTH,
    design="5/C08", technique="TLA+ Factors!Strip + TLC invariant CheckStrip + trace validation of full/stripped histories"),
  "C09": dict(text="Session transforms Permute / Subdivide: checked exactly on the specification for all permutations and m in {2,3} (MC_C09!CheckLayout); on the real library the transformed input is bound to the specification's transform and annual fields / per-step vectors are compared by TLC." + BOTH,
